@@ -32,7 +32,7 @@ Dist(d)            == Pg("dist", d, <<>>, <<>>, NoE, <<>>)
 Cat                == Pg("cat", 0, <<>>, <<>>, NoE, <<>>)       \* genjax.categorical(logits = arg), arg = array of log2 probabilities
 Site(addr, callee, args) == [addr |-> addr, callee |-> callee, args |-> args]
 Static(sites, ret) == Pg("static", 0, <<>>, sites, ret, <<>>)
-Vmap(p, n, axes)   == Pg("vmap", n, <<p>>, <<>>, NoE, axes)      \* axes[j] = 1: argument j mapped over axis 0, 0: broadcast
+Vmap(p, n, axes)   == Pg("vmap", n, <<p>>, <<>>, NoE, axes)      \* axes[j] = 1: argument j mapped over axis 0, 2: over axis 1, 0: broadcast
 Repeat(p, n)       == Pg("repeat", n, <<p>>, <<>>, NoE, <<>>)
 Scan(p, n)         == Pg("scan", n, <<p>>, <<>>, NoE, <<>>)      \* n = static length (also when xs is None)
 Switch(bs)         == Pg("switch", 0, bs, <<>>, NoE, <<>>)
@@ -75,7 +75,9 @@ Exec(p, args, chm, dflt) ==
     [] p.k \in {"vmap", "repeat"} ->
          LET n  == p.n
              el(i) == IF p.k = "repeat" THEN args
-                      ELSE [j \in 1..Len(args) |-> IF p.x[j] = 1 THEN Unstack(args[j], i) ELSE args[j]]
+                      ELSE [j \in 1..Len(args) |-> CASE p.x[j] = 1 -> Unstack(args[j], i)
+                                                       [] p.x[j] = 2 -> Vc([r \in 1..Len(args[j].k) |-> args[j].k[r].k[i]])   \* in_axes = 1
+                                                       [] OTHER -> args[j]]
          IN  ExecLoop("map", p.subs[1], n, 1, [i \in 1..n |-> el(i)], chm, dflt, <<>>, R3(EmptyF, Nn, "none"))
     [] p.k = "scan" ->
          LET n == p.n
